@@ -13,8 +13,13 @@ fn chain_sys(ctx: &mut Context, rng: &mut SmallRng) -> TransitionSystem {
     let ns = rng.random_range(1..=4usize);
     let ni = rng.random_range(0..=2usize);
     let w = if ns + ni <= 4 && rng.random_bool(0.3) { 2 } else { 1 };
-    let states: Vec<ExprRef> = (0..ns).map(|k| ctx.bv_symbol(&format!("s{k}"), w)).collect();
-    let inputs: Vec<ExprRef> = (0..ni).map(|k| ctx.bv_symbol(&format!("in{k}"), w)).collect();
+    // the symbols are created in a random order (inputs and states mixed): the position of a state in `sys.states` says
+    // nothing about the order of the symbol references
+    let mut order: Vec<(bool, usize)> = (0..ns).map(|k| (true, k)).chain((0..ni).map(|k| (false, k))).collect();
+    order.shuffle(rng);
+    let mut states: Vec<ExprRef> = vec![ctx.zero(1); ns];
+    let mut inputs: Vec<ExprRef> = vec![ctx.zero(1); ni];
+    for (is_state, k) in order { if is_state { states[k] = ctx.bv_symbol(&format!("s{k}"), w); } else { inputs[k] = ctx.bv_symbol(&format!("in{k}"), w); } }
     for i in inputs.iter() { sys.add_input(ctx, *i); }
     let all: Vec<ExprRef> = states.iter().chain(inputs.iter()).cloned().collect();
     let mut chain = |ctx: &mut Context, rng: &mut SmallRng, pool: &[ExprRef], allow_empty: bool| -> Option<ExprRef> {
